@@ -187,6 +187,9 @@ type OpOut struct {
 	Err       string  `json:"err"`
 	Unchanged bool    `json:"unchanged"`
 	Events    []EvOut `json:"events"`
+	// Desc: the structure of the operation as C18_Ops.opdesc terms (one per finisher call), when the family
+	// states it and the operation completed
+	Desc []string `json:"desc,omitempty"`
 }
 type Obs struct {
 	Ops []OpOut `json:"ops"`
@@ -274,7 +277,7 @@ func newUser() *User {
 }
 
 var families = []fam{
-	{name: "create_assoc", run: func(h *gorm.DB) error { return h.Create(newUser()).Error },
+	{name: "create_assoc", run: func(h *gorm.DB) error { D(createUserTree(wr)); return h.Create(newUser()).Error },
 		path: func(t string) []string {
 			switch t {
 			case "users":
@@ -286,7 +289,7 @@ var families = []fam{
 			}
 			return []string{litAssoc0, litAssoc1}
 		}},
-	{name: "create_slice", run: func(h *gorm.DB) error { return h.Create(&[]User{*newUser(), *newUser()}).Error },
+	{name: "create_slice", run: func(h *gorm.DB) error { D(createUserTree(wr)); return h.Create(&[]User{*newUser(), *newUser()}).Error },
 		path: func(t string) []string {
 			switch t {
 			case "users":
@@ -299,6 +302,8 @@ var families = []fam{
 			return []string{litAssoc0, litAssoc1}
 		}},
 	{name: "create_in_batches", run: func(h *gorm.DB) error {
+		// 3 rows, batches of 2: through Transaction unless the default transaction is off
+		D(dOp(lib.App("TCreateInBatches", lib.Bool(!cur.skipTx)), l(wrN("SQuery", nil, nil), wrN("SQuery", nil, nil)), nil))
 		return h.CreateInBatches(&[]User{{Name: name("b")}, {Name: name("b")}, {Name: name("b")}}, 2).Error
 	}, path: always(litCIB)},
 	{name: "save_existing", run: func(h *gorm.DB) error {
@@ -308,6 +313,7 @@ var families = []fam{
 		}
 		u.Age++
 		u.Pets = []Pet{{Name: name("sp")}}
+		D(find("SQuery"), dOp("TSave", l(wr("SExec", nil, l(assocSave(wrN("SQuery", nil, nil))))), nil))
 		return h.Save(&u).Error
 	}, path: func(t string) []string {
 		if t == "users" {
@@ -315,12 +321,17 @@ var families = []fam{
 		}
 		return []string{litSave0, litAssoc0, litAssoc1}
 	}},
-	{name: "save_missing", run: func(h *gorm.DB) error { return h.Save(&User{ID: 900 + int64(nextName), Name: name("sm")}).Error },
+	{name: "save_missing", run: func(h *gorm.DB) error {
+		D(dOp("TSave", l(wr("SExec", nil, nil)), l(wr("SQuery", nil, nil))))
+		return h.Save(&User{ID: 900 + int64(nextName), Name: name("sm")}).Error
+	},
 		path: always(litSave1)},
 	{name: "updates", run: func(h *gorm.DB) error {
+		D(wr("SExec", nil, nil))
 		return h.Model(&User{ID: 1}).Updates(map[string]interface{}{"age": 41, "name": name("up")}).Error
 	}, path: always()},
 	{name: "update_where", run: func(h *gorm.DB) error {
+		D(wr("SExec", nil, nil))
 		return h.Model(&User{}).Where("age > ?", 0).Update("age", gorm.Expr("age + 1")).Error
 	},
 		path: always()},
@@ -329,6 +340,7 @@ var families = []fam{
 		if err := h.Create(u).Error; err != nil {
 			return err
 		}
+		D(createUserTree(wr), wr("SExec", l(delAssoc(wrN("SExec", nil, nil)), delAssoc(wrN("SExec", nil, nil))), nil))
 		return h.Select("Pets", "Langs").Delete(u).Error
 	}, path: func(t string) []string {
 		switch t {
@@ -343,14 +355,23 @@ var families = []fam{
 		}
 		return []string{litDelAssoc0}
 	}},
-	{name: "delete_where", run: func(h *gorm.DB) error { return h.Where("name = ?", "nobody").Delete(&User{}).Error }, path: always()},
+	{name: "delete_where", run: func(h *gorm.DB) error {
+		D(wr("SExec", nil, nil))
+		return h.Where("name = ?", "nobody").Delete(&User{}).Error
+	}, path: always()},
 	{name: "preload", run: func(h *gorm.DB) error {
 		var us []User
-		return h.Preload("Pets").Preload("Company").Preload("Langs").Find(&us).Error
+		err := h.Preload("Pets").Preload("Company").Preload("Langs").Find(&us).Error
+		x := loadedOf(us)
+		D(find("SQuery", relCompany(x), relLangs(x), relPets(x)))
+		return err
 	}, path: only("users", litPreload)},
 	{name: "preload_nested", run: func(h *gorm.DB) error {
 		var us []User
-		return h.Preload("Pets.Toys").Preload(clause.Associations).Find(&us).Error
+		err := h.Preload("Pets.Toys").Preload(clause.Associations).Find(&us).Error
+		x := loadedOf(us)
+		D(find("SQuery", relCompany(x), relLangs(x), relPets(x, relToys(x)), relProfile(x)))
+		return err
 	}, path: func(t string) []string {
 		switch t {
 		case "users":
@@ -362,17 +383,22 @@ var families = []fam{
 	}},
 	{name: "joins", run: func(h *gorm.DB) error {
 		var us []User
+		D(find("SQuery"))
 		return h.Joins("Company").Where("users.age > ?", 1).Find(&us).Error
 	}, path: always()},
 	{name: "joins_preload", run: func(h *gorm.DB) error {
 		var us []User
-		return h.Joins("Company").Preload("Pets").Find(&us).Error
+		err := h.Joins("Company").Preload("Pets").Find(&us).Error
+		D(find("SQuery", relPets(loadedOf(us))))
+		return err
 	}, path: only("users", litPreload)},
 	// a preload nested under a JOINED relation: the joined value gets an internal session of its own
 	// (preloadDB), from which the nested preload derives two more; single-struct and slice destinations
 	{name: "joins_nested_preload_first", run: func(h *gorm.DB) error {
 		var u User
-		return h.Joins("Company").Preload("Company.Offices").First(&u).Error
+		err := h.Joins("Company").Preload("Company.Offices").First(&u).Error
+		D(find("SQuery", joinedOffices(u.Company != nil)))
+		return err
 	}, path: joinedNested},
 	{name: "joins_nested_preload_take_last", run: func(h *gorm.DB) error {
 		var u, v User
@@ -383,15 +409,26 @@ var families = []fam{
 	}, path: joinedNested},
 	{name: "joins_nested_preload_find_one", run: func(h *gorm.DB) error {
 		var u User
-		return h.Joins("Company").Preload("Company.Offices").Where("users.id = ?", 1).Find(&u).Error
+		err := h.Joins("Company").Preload("Company.Offices").Where("users.id = ?", 1).Find(&u).Error
+		D(find("SQuery", joinedOffices(u.Company != nil)))
+		return err
 	}, path: joinedNested},
 	{name: "joins_nested_preload_find", run: func(h *gorm.DB) error {
 		var us []User
-		return h.Joins("Company").Preload("Company.Offices").Preload("Langs").Find(&us).Error
+		err := h.Joins("Company").Preload("Company.Offices").Preload("Langs").Find(&us).Error
+		x := loadedOf(us)
+		D(find("SQuery", joinedOffices(anyCompany(us)), relLangs(x)))
+		return err
 	}, path: joinedNested},
 	{name: "joins_nested_preload_ptrs", run: func(h *gorm.DB) error {
 		var us []*User
-		return h.Joins("Company").Preload("Company.Offices").Find(&us).Error
+		err := h.Joins("Company").Preload("Company.Offices").Find(&us).Error
+		anyC := false
+		for _, u := range us {
+			anyC = anyC || u.Company != nil
+		}
+		D(find("SQuery", joinedOffices(anyC)))
+		return err
 	}, path: joinedNested},
 	{name: "joins_nested_preload_in_tx", run: func(h *gorm.DB) error {
 		return h.Transaction(func(tx *gorm.DB) error {
@@ -490,11 +527,20 @@ var families = []fam{
 		}
 		return []string{litBegin, litPreload}
 	}},
-	{name: "count", run: func(h *gorm.DB) error { var n int64; return h.Model(&User{}).Where("age > ?", 1).Count(&n).Error }, path: always()},
-	{name: "pluck", run: func(h *gorm.DB) error { var ns []string; return h.Model(&User{}).Pluck("name", &ns).Error }, path: always()},
-	{name: "first", run: func(h *gorm.DB) error { var u User; return h.First(&u).Error }, path: always()},
+	{name: "count", run: func(h *gorm.DB) error {
+		var n int64
+		D(find("SQuery"))
+		return h.Model(&User{}).Where("age > ?", 1).Count(&n).Error
+	}, path: always()},
+	{name: "pluck", run: func(h *gorm.DB) error {
+		var ns []string
+		D(find("SQuery"))
+		return h.Model(&User{}).Pluck("name", &ns).Error
+	}, path: always()},
+	{name: "first", run: func(h *gorm.DB) error { var u User; D(find("SQuery")); return h.First(&u).Error }, path: always()},
 	{name: "take_last", run: func(h *gorm.DB) error {
 		var u User
+		D(find("SQuery"), find("SQuery"))
 		if err := h.Take(&u).Error; err != nil {
 			return err
 		}
@@ -502,13 +548,16 @@ var families = []fam{
 	}, path: always()},
 	{name: "first_or_create", run: func(h *gorm.DB) error {
 		var u User
+		D(dOp("TFirstOrCreate", l(find("SQuery")), l(wr("SQuery", nil, nil))))
 		return h.Where(User{Name: name("foc")}).FirstOrCreate(&u).Error
 	}, path: always(litFOC)},
 	{name: "scan", run: func(h *gorm.DB) error {
 		var r []struct{ Name string }
+		D(rowStmt) // Scan goes through Rows: the Row callbacks
 		return h.Model(&User{}).Select("name").Scan(&r).Error
 	}, path: always(), rows: true},
 	{name: "rows", run: func(h *gorm.DB) error {
+		D(rowStmt)
 		rows, err := h.Model(&User{}).Rows()
 		if err != nil {
 			return err
@@ -519,19 +568,25 @@ var families = []fam{
 	}, path: always(), rows: true},
 	{name: "row", run: func(h *gorm.DB) error {
 		var n string
+		D(rowStmt)
 		return h.Model(&User{}).Select("name").Where("id = ?", 1).Row().Scan(&n)
 	}, path: always(), rows: true},
 	{name: "raw_scan", run: func(h *gorm.DB) error {
 		var n int64
+		D(rowStmt)
 		return h.Raw("SELECT count(*) FROM users WHERE age > ?", 0).Scan(&n).Error
 	}, path: always(), rows: true},
-	{name: "exec", run: func(h *gorm.DB) error { return h.Exec("UPDATE users SET age = age + ? WHERE id = ?", 1, 2).Error }, path: always()},
+	{name: "exec", run: func(h *gorm.DB) error {
+		D(eStmt)
+		return h.Exec("UPDATE users SET age = age + ? WHERE id = ?", 1, 2).Error
+	}, path: always()},
 	{name: "transaction", run: func(h *gorm.DB) error {
 		return h.Transaction(func(tx *gorm.DB) error {
 			if err := tx.Create(&User{Name: name("tx")}).Error; err != nil {
 				return err
 			}
 			var n int64
+			D(txBlock(wrN("SQuery", nil, nil), find("SQuery")))
 			return tx.Model(&User{}).Count(&n).Error
 		})
 	}, path: always(litBegin)},
@@ -544,12 +599,14 @@ var families = []fam{
 				tx2.Create(&User{Name: name("t2")})
 				return errors.New("inner rollback")
 			})
+			D(txBlock(wrN("SQuery", nil, nil), nestedTx(true, wrN("SQuery", nil, nil)), nestedTx(false, wrN("SQuery", nil, nil))))
 			return tx.Transaction(func(tx3 *gorm.DB) error { return tx3.Create(&Pet{Name: name("t3")}).Error })
 		})
 	}, path: always(litBegin)},
 	{name: "transaction_rollback", run: func(h *gorm.DB) error {
 		err := h.Transaction(func(tx *gorm.DB) error {
 			tx.Create(&User{Name: name("rb")})
+			D(txBlock(wrN("SQuery", nil, nil)))
 			return errors.New("roll back")
 		})
 		if err == nil || err.Error() != "roll back" {
@@ -571,6 +628,7 @@ var families = []fam{
 			tx.Rollback()
 			return err
 		}
+		D(txBlock(createUserTree(wrN), find("SQuery", relPets(loadedOf(us)))))
 		return tx.Commit().Error
 	}, path: func(t string) []string {
 		switch t {
@@ -656,7 +714,7 @@ func init() {
 						continue
 					}
 					families = append(families, fam{name: "am_" + strings.ToLower(rl.name) + "_" + opn + sfx,
-						run:  func(h *gorm.DB) error { return f(assoc(h)) },
+						run:  func(h *gorm.DB) error { D(amDesc(rl.name, opn, fromSlice)); return f(assoc(h)) },
 						path: always(litAssocSave0, litAssocSave1)})
 				}
 			}
@@ -665,18 +723,22 @@ func init() {
 	more := []fam{
 		{name: "first_or_init", run: func(h *gorm.DB) error {
 			var u User
+			D(find("SQuery"))
 			return h.Where(User{Name: "nobody"}).Attrs(User{Age: 5}).FirstOrInit(&u).Error
 		}, path: always()},
 		{name: "first_or_create_found", run: func(h *gorm.DB) error {
 			var u User
+			D(dOp("TFirstOrCreate", l(find("SQuery")), l(wr("SExec", nil, nil))))
 			return h.Where("id = ?", 1).Assign(User{Age: 77}).FirstOrCreate(&u).Error
 		}, path: always(litFOC)},
 		{name: "first_or_create_attrs", run: func(h *gorm.DB) error {
 			var u User
+			D(dOp("TFirstOrCreate", l(find("SQuery")), l(wr("SQuery", nil, nil))))
 			return h.Where(User{Name: name("foa")}).Attrs(User{Age: 9}).FirstOrCreate(&u).Error
 		}, path: always(litFOC)},
 		{name: "count_distinct_group", run: func(h *gorm.DB) error {
 			var n int64
+			D(find("SQuery"), find("SQuery"), find("SQuery"))
 			if err := h.Model(&User{}).Distinct("age").Count(&n).Error; err != nil {
 				return err
 			}
@@ -687,15 +749,17 @@ func init() {
 		}, path: always()},
 		{name: "save_slice", run: func(h *gorm.DB) error {
 			us := []User{{ID: 1, Name: name("ss"), Age: 31}, {Name: name("ss"), Age: 32}}
+			D(wr("SQuery", nil, nil)) // Save of a slice: one Create with ON CONFLICT
 			return h.Save(&us).Error
 		}, path: always()},
 		{name: "update_columns", run: func(h *gorm.DB) error {
+			D(wr("SExec", nil, nil), wr("SExec", nil, nil))
 			if err := h.Model(&User{ID: 1}).UpdateColumn("age", 50).Error; err != nil {
 				return err
 			}
 			return h.Model(&User{ID: 2}).UpdateColumns(User{Age: 51}).Error
 		}, path: always()},
-		{name: "delete_conds", run: func(h *gorm.DB) error { return h.Delete(&Pet{}, "name = ?", "nobody").Error }, path: always()},
+		{name: "delete_conds", run: func(h *gorm.DB) error { D(wr("SExec", nil, nil)); return h.Delete(&Pet{}, "name = ?", "nobody").Error }, path: always()},
 		{name: "delete_select_all", run: func(h *gorm.DB) error {
 			u := newUser()
 			if err := h.Create(u).Error; err != nil {
@@ -710,7 +774,10 @@ func init() {
 		}},
 		{name: "preload_conds", run: func(h *gorm.DB) error {
 			var us []User
-			return h.Preload("Pets", "name <> ?", "zz").Preload("Langs", func(d *gorm.DB) *gorm.DB { return d.Order("langs.id") }).Preload("Profile").Find(&us).Error
+			err := h.Preload("Pets", "name <> ?", "zz").Preload("Langs", func(d *gorm.DB) *gorm.DB { return d.Order("langs.id") }).Preload("Profile").Find(&us).Error
+			x := loadedOf(us)
+			D(find("SQuery", relLangs(x), relPets(x), relProfile(x)))
+			return err
 		}, path: only("users", litPreload)},
 		{name: "connection", run: func(h *gorm.DB) error {
 			return h.Connection(func(tx *gorm.DB) error {
@@ -730,6 +797,7 @@ func init() {
 			tx.SavePoint("sp1")
 			tx.Create(&Pet{Name: name("sp")})
 			tx.RollbackTo("sp1")
+			D(txBlock(wrN("SQuery", nil, nil), rawExec, wrN("SQuery", nil, nil), rawExec))
 			return tx.Commit().Error
 		}, path: always(litBegin)},
 		{name: "begin_rollback", run: func(h *gorm.DB) error {
@@ -738,6 +806,7 @@ func init() {
 				return tx.Error
 			}
 			tx.Exec("UPDATE users SET age = age + 1")
+			D(txBlock(eStmt))
 			return tx.Rollback().Error
 		}, path: always(litBegin)},
 		{name: "row_exec_in_tx", run: func(h *gorm.DB) error {
@@ -751,16 +820,20 @@ func init() {
 					return err
 				}
 				rows.Close()
+				D(txBlock(rowStmt, rowStmt, eStmt))
 				return tx.Exec("UPDATE users SET age = age + ? WHERE id = ?", 1, 2).Error
 			})
 		}, path: always(litBegin), rows: true},
 		{name: "debug_session", run: func(h *gorm.DB) error {
 			var us []User
+			D(find("SQuery"))
 			return h.Session(&gorm.Session{Logger: logger.Discard}).Where("age > ?", 0).Find(&us).Error
 		}, path: always()},
 		{name: "scopes", run: func(h *gorm.DB) error {
 			var us []User
-			return h.Scopes(func(d *gorm.DB) *gorm.DB { return d.Where("age > ?", 1) }).Preload("Pets").Find(&us).Error
+			err := h.Scopes(func(d *gorm.DB) *gorm.DB { return d.Where("age > ?", 1) }).Preload("Pets").Find(&us).Error
+			D(find("SQuery", relPets(loadedOf(us))))
+			return err
 		}, path: only("users", litPreload)},
 	}
 	// other argument forms of association mode: values and slices of values instead of pointers, Select /
@@ -795,6 +868,15 @@ func init() {
 						d = d.Select(rel)
 					}
 					// user 2 and its relations were seeded before the operation
+					nrel := 1
+					if rel == "*" {
+						nrel = 3 // Pets, Profile, Langs: belongs-to is not cascaded
+					}
+					before := []string{}
+					for i := 0; i < nrel; i++ {
+						before = append(before, delAssoc(wrN("SExec", nil, nil)))
+					}
+					D(wrT(!skipTx && !cur.skipTx, "SExec", before, nil))
 					return d.Delete(&User{ID: 2}).Error
 				}, path: func(t string) []string {
 					if t == "users" {
@@ -821,25 +903,33 @@ func init() {
 			return h
 		}
 		rw := []fam{
-			{name: "create_returning" + sfx, run: func(h *gorm.DB) error { return sess(h).Create(&Pet{Name: name("cr")}).Error }, path: always()},
+			{name: "create_returning" + sfx, run: func(h *gorm.DB) error {
+				D(wrT(!skipTx && !cur.skipTx, "SQuery", nil, nil))
+				return sess(h).Create(&Pet{Name: name("cr")}).Error
+			}, path: always()},
 			{name: "create_returning_clause" + sfx, run: func(h *gorm.DB) error {
+				D(wrT(!skipTx && !cur.skipTx, "SQuery", nil, nil))
 				return sess(h).Clauses(clause.Returning{Columns: []clause.Column{{Name: "id"}, {Name: "name"}}}).Create(&[]Pet{{Name: name("cr")}, {Name: name("cr")}}).Error
 			}, path: always()},
 			{name: "update_returning" + sfx, run: func(h *gorm.DB) error {
 				var us []User
+				D(wrT(!skipTx && !cur.skipTx, "SQuery", nil, nil))
 				return sess(h).Model(&us).Clauses(clause.Returning{}).Where("id = ?", 1).Update("age", gorm.Expr("age + 1")).Error
 			}, path: always()},
 			{name: "delete_returning" + sfx, run: func(h *gorm.DB) error {
 				var ps []Pet
+				D(wrT(!skipTx && !cur.skipTx, "SQuery", nil, nil))
 				return sess(h).Clauses(clause.Returning{}).Where("user_id = ?", 2).Delete(&ps).Error
 			}, path: always()},
 			{name: "delete_returning_columns" + sfx, run: func(h *gorm.DB) error {
 				var ls []Lang
+				D(wrT(!skipTx && !cur.skipTx, "SQuery", nil, nil))
 				return sess(h).Clauses(clause.Returning{Columns: []clause.Column{{Name: "name"}}}).Where("id = ?", 1).Delete(&ls).Error
 			}, path: always()},
 			{name: "delete_returning_in_tx" + sfx, run: func(h *gorm.DB) error {
 				return sess(h).Transaction(func(tx *gorm.DB) error {
 					var ts []Toy
+					D(txBlock(wrN("SQuery", nil, nil)))
 					return tx.Clauses(clause.Returning{}).Where("id > ?", 0).Delete(&ts).Error
 				})
 			}, path: always(litBegin)},
@@ -1012,10 +1102,16 @@ func runCase(in Input, facts srcfacts.Facts) Obs {
 					oo.Err = fmt.Sprint("panic: ", p)
 				}
 			}()
+			cur.desc, cur.ok = nil, false
+			cur.skipTx, cur.noNested = has(op.Derive, "skip_default_tx"), has(op.Derive, "disable_nested_tx")
 			if err := f.run(h); err != nil {
 				oo.Err = err.Error()
 			}
 		}()
+		// CreateBatchSize routes every Create of a slice through CreateInBatches (further Session{} layers)
+		if cur.ok && oo.Err == "" && !op.Cancelled && !has(op.Derive, "batch_size") {
+			oo.Desc = append([]string{}, cur.desc...)
+		}
 		evs := rec.Snapshot()
 		notes := clog.snapshot()
 		oo.Unchanged = dump() == before
@@ -1154,10 +1250,18 @@ func term(in Input, o Obs, facts srcfacts.Facts) string {
 			}
 			evs[j] = lib.App("mk_ev", kind, lib.List(path), siteForm(facts, e.Site, false), inner, lib.Z(int64(e.Tag)), lib.Bool(e.Failed), lib.Bool(e.Done))
 		}
-		ops[i] = lib.App("mk_opc", lib.Z(int64(op.Tag)), lib.Bool(op.Cancelled), lib.Bool(o.Ops[i].Err != ""), lib.Bool(o.Ops[i].Unchanged), lib.List(evs))
+		derive, desc := "None", "None"
+		if op.Derive != "" {
+			derive = "(Some " + deriveLit(op.Derive) + ")"
+		}
+		if o.Ops[i].Desc != nil {
+			desc = "(Some " + lib.List(o.Ops[i].Desc) + ")"
+		}
+		ops[i] = lib.App("mk_opc", lib.Z(int64(op.Tag)), lib.Bool(op.Cancelled), lib.Bool(o.Ops[i].Err != ""), lib.Bool(o.Ops[i].Unchanged), lib.List(evs),
+			lib.Bool(in.Prep || has(op.Derive, "prepare_stmt")), derive, desc)
 	}
 	cp := lib.App("mk_copies", lib.Bool(copies.GetInstance), lib.Bool(copies.Clone), lib.Bool(copies.Session))
-	return lib.App("mk_case", cp, lib.List(ops))
+	return lib.App("mk_case", cp, facts.RolesTerm(), lib.List(ops))
 }
 
 func shapeOf(in Input) string {
@@ -1201,6 +1305,15 @@ func main() {
 				}
 			}
 			out.Count("op_error", errk)
+			if o.Ops[i].Desc != nil {
+				out.Count("whole_operation", "opdesc")
+				out.Count("opdesc_family", in.Ops[i].Fam)
+			} else if errk == "nil" && !in.Ops[i].Cancelled {
+				out.Count("whole_operation", "per-event only")
+				out.Count("no_opdesc_family", in.Ops[i].Fam)
+			} else {
+				out.Count("whole_operation", "cancelled or failed")
+			}
 			for _, e := range o.Ops[i].Events {
 				out.Count("event_kind", e.Kind)
 				out.Count("path_len", fmt.Sprint(len(e.Path)))
